@@ -10,10 +10,12 @@ import (
 	"log"
 	"math/big"
 	"os"
+	"os/exec"
 	"path/filepath"
 	"sort"
 	"strconv"
 	"sync"
+	"sync/atomic"
 	"testing"
 	"time"
 
@@ -679,3 +681,15 @@ func must[T any](v T, err error) T {
 }
 
 type pluginInfo = plugin.AutomationReportInfo
+
+
+var coverSeq atomic.Int64
+
+// coverChild makes a child process of the harness write a coverage profile of its own when the coverage measurement
+// (bin/coverage) asks for it; it does nothing in the checks.
+func coverChild(cmd *exec.Cmd) {
+	if d := os.Getenv("VERIF_COVERDIR"); d != "" {
+		cmd.Args = append(cmd.Args, fmt.Sprintf("-test.coverprofile=%s/child-%d-%d.prof", d, os.Getpid(), coverSeq.Add(1)))
+	}
+}
+
